@@ -219,6 +219,7 @@ type e1 struct {
 	guars map[string]*Guar // by FuncInfo name
 	byObj map[*types.Func]*FuncInfo
 	muts  map[*FuncInfo]map[int]bool // param index (recv = -1) -> mutated
+	mutFields map[*FuncInfo]map[int]map[string]bool // ... -> first-level fields written ("*" = anything reachable)
 	cache map[*FuncInfo]*e1func
 	inferred  map[*FuncInfo][]*Term
 	inferring map[*FuncInfo]bool
@@ -232,7 +233,7 @@ type e1 struct {
 }
 
 func newE1(c *Ctx, guars []*Guar) *e1 {
-	e := &e1{c: c, guars: map[string]*Guar{}, byObj: map[*types.Func]*FuncInfo{}, muts: map[*FuncInfo]map[int]bool{}, cache: map[*FuncInfo]*e1func{}, anchors: map[string]bool{}}
+	e := &e1{c: c, guars: map[string]*Guar{}, byObj: map[*types.Func]*FuncInfo{}, muts: map[*FuncInfo]map[int]bool{}, cache: map[*FuncInfo]*e1func{}, anchors: map[string]bool{}, mutFields: map[*FuncInfo]map[int]map[string]bool{}}
 	for _, fi := range c.P.Funcs {
 		if fi.Obj != nil {
 			e.byObj[fi.Obj] = fi
@@ -316,8 +317,10 @@ func (e *e1) computeMuts() {
 		}
 		return false
 	}
+	var lastField string // first-level field of the last rootOf result ("*" when not a plain field path)
 	rootOf := func(info *types.Info, x ast.Expr) (types.Object, bool) {
 		deref := false
+		lastField = ""
 		for {
 			x = unparen(x)
 			switch y := x.(type) {
@@ -329,12 +332,15 @@ func (e *e1) computeMuts() {
 				return o, deref
 			case *ast.SelectorExpr:
 				deref = true
+				lastField = y.Sel.Name
 				x = y.X
 			case *ast.StarExpr:
 				deref = true
+				lastField = "*"
 				x = y.X
 			case *ast.IndexExpr:
 				deref = true
+				lastField = "*"
 				x = y.X
 			default:
 				return nil, false
@@ -350,7 +356,7 @@ func (e *e1) computeMuts() {
 			}
 			info := fi.Pkg.TypesInfo
 			pi := paramIndex(fi)
-			mark := func(o types.Object) {
+			markF := func(o types.Object, field string) {
 				idx, ok := pi[o]
 				if !ok || !pointerLike(o.Type()) {
 					return
@@ -362,7 +368,21 @@ func (e *e1) computeMuts() {
 					e.muts[fi][idx] = true
 					changed = true
 				}
+				if field == "" {
+					field = "*"
+				}
+				if e.mutFields[fi] == nil {
+					e.mutFields[fi] = map[int]map[string]bool{}
+				}
+				if e.mutFields[fi][idx] == nil {
+					e.mutFields[fi][idx] = map[string]bool{}
+				}
+				if !e.mutFields[fi][idx][field] {
+					e.mutFields[fi][idx][field] = true
+					changed = true
+				}
 			}
+			mark := func(o types.Object) { markF(o, lastField) }
 			ast.Inspect(fi.Body, func(n ast.Node) bool {
 				switch s := n.(type) {
 				case *ast.AssignStmt:
@@ -399,8 +419,15 @@ func (e *e1) computeMuts() {
 						if u, ok := unparen(arg).(*ast.UnaryExpr); ok && u.Op == token.AND {
 							arg = u.X
 						}
-						if o, _ := rootOf(info, arg); o != nil {
-							mark(o)
+						if o, d := rootOf(info, arg); o != nil {
+							if !d {
+								// the parameter itself is handed on: the callee's written fields are ours
+								for fl := range e.mutFields[callee][idx] {
+									markF(o, fl)
+								}
+							} else {
+								mark(o)
+							}
 						}
 					}
 				}
@@ -1221,7 +1248,15 @@ func (f *e1func) callEffects(st *fstate, n ast.Node, asCond bool) *fstate {
 				continue
 			}
 			if r, p, ok := accessPath(f.term(arg)); ok && r != nil {
-				st = st.killX(r, p, true)
+				fields := f.eng.mutFields[callee][idx]
+				if len(fields) > 0 && !fields["*"] {
+					// the callee writes these fields of the object only
+					for fl := range fields {
+						st = st.killX(r, append(append([]string{}, p...), fl), true)
+					}
+				} else {
+					st = st.killX(r, p, true)
+				}
 			}
 		}
 	}
@@ -1330,10 +1365,15 @@ func (f *e1func) transfer(st *fstate, n ast.Node, sites *[]*e1site) []*fstate {
 				f.statusOf[rhs[0].Key()] = idx
 			}
 			for i, lt := range lhs {
-				if lt == nil || lt.K != "var" {
+				if lt == nil {
 					continue
 				}
 				if r, p, ok := accessPath(lt); ok && mentions(rhs[0], r, p) {
+					continue
+				}
+				if lt.K != "var" {
+					// x.f, err = call(): the field holds result i
+					add = append(add, fact("eq", lt, mk("res", fmt.Sprint(i), rhs[0])))
 					continue
 				}
 				add = append(add, fact("def", lt, rhs[0], mk("const", fmt.Sprint(i))))
@@ -1467,7 +1507,12 @@ func (f *e1func) collectSites(n ast.Node, states []*fstate, sites *[]*e1site, pr
 				if lt == nil {
 					continue
 				}
-				*sites = append(*sites, &e1site{kind: "store", node: s, term: mk("store", s.Tok.String(), lt, f.term(s.Rhs[i])), pos: s.Lhs[i].Pos(), states: states})
+				rt := f.term(s.Rhs[i])
+				if s.Tok != token.ASSIGN && s.Tok != token.DEFINE {
+					// x op= e stores x op e
+					rt = mk("op", strings.TrimSuffix(s.Tok.String(), "="), lt, rt)
+				}
+				*sites = append(*sites, &e1site{kind: "store", node: s, term: mk("store", s.Tok.String(), lt, rt), pos: s.Lhs[i].Pos(), states: states})
 			}
 		} else if len(s.Rhs) == 1 {
 			// a, b = f(): each target receives res(i, f())
